@@ -230,6 +230,8 @@ structure Model where
   readerStores : List Nat
   entries : List Nat
   generators : List Nat
+  /-- the generators that lie on a path from an entry point (`witnessPaths` has one path for each) -/
+  usedGenerators : List Nat
   /-- virtual nodes: one per secret, out-edges = the calls its value is computed from -/
   secrets : List Nat
   witnessPaths : List (List Nat)
@@ -256,7 +258,8 @@ def closedB (M : Model) : Bool :=
   && allB (fun l => (M.sc l).isEmpty) M.leaves
   && allIn (toMask M.leaves) (M.cryptoRand ++ M.mathRand ++ M.seeders ++ M.clock ++ M.suspect)
   && allIn (toMask M.mathRand) M.seeders
-  && !M.entries.isEmpty && !M.generators.isEmpty && !M.secrets.isEmpty
+  && allIn (toMask M.generators) M.usedGenerators
+  && !M.entries.isEmpty && !M.usedGenerators.isEmpty && !M.secrets.isEmpty
 
 /-- a source draws from `crypto/rand` and from nothing reproducible -/
 def sourceOK (M : Model) (x : Nat) : Bool :=
